@@ -4,6 +4,7 @@ import Model.Guard
 import Model.Migration
 import Model.Enfold
 import Model.Backends
+import Model.SqlSession
 import Model.Audit
 import Model.Serialize
 /-!
@@ -54,6 +55,10 @@ inductive V where
                                                -- stands for the policy it encodes)
   | mdoc (u : Store.Uid) (p : Store.Pol)       -- a document prepared from / found for a policy
   | mcursor (docs : Store.St)                  -- a cursor over found documents
+  | sworld (s : SqlSession.Sess) (conflict : Bool) (raised : Option Store.Out)
+                                               -- what the methods of the SQL storage act on: the session (committed state, the
+                                               -- session's view, dirty) and whether a pending row's key is already taken
+  | smodel (u : Store.Uid) (p : Store.Pol) (ok : Bool)   -- a `PolicyModel` row object
   | pager (ga : Int → Int → Option Store.St)   -- any storage, seen through its `get_all(limit, offset)` (`none`: it raises)
   | alog (audits : List AuditRec) (decisions : List Bool)
                                                -- what the guard writes: the audit records and the decision-log records
@@ -86,6 +91,8 @@ def truth : V → Bool
   | .eworld _ _ _ _ _ => true
   | .alog _ _ => true
   | .pager _ => true
+  | .sworld _ _ _ => true
+  | .smodel _ _ _ => true
   | .mworld _ _ => true
   | .mdoc _ _ => true
   | .mcursor _ => true
@@ -906,6 +913,80 @@ def raiseMongoM (exc : String) (w : M) : M :=
     | .mworld coll Option.none =>
       if exc == "PolicyExistsError" then .ok (.mworld coll (some .existsErr))
       else if exc == "ValueError" then .ok (.mworld coll (some .valueError)) else raiseM
+    | _ => raiseM
+
+/-! ### the SQL storage: session primitives as effects (the session model of `Model/SqlSession.lean`) -/
+
+open SqlSession in
+/-- `PolicyModel.from_policy(policy)`: the row object, or whatever the conversion raises -/
+def fromPolicyM (pol : M) : M :=
+  bindM pol fun p => match p with
+    | .polv u c ok => if ok then .ok (.smodel u c true) else raiseM
+    | _ => raiseM
+
+open SqlSession in
+/-- `self.session.add(model)`: the row is pending in the session's view; whether its key is already taken shows at the flush -/
+def sessAddM (model w : M) (k : V → M) : M :=
+  bindM model fun m => bindM w fun w => match m, w with
+    | .smodel u c _, .sworld s _ Option.none =>
+      k (.sworld (stage (fun v => v ++ [(u, c)]) s) (Store.lookup u s.view).isSome Option.none)
+    | _, _ => raiseM
+
+open SqlSession in
+/-- `self.session.commit()` inside a `try` with handlers for `IntegrityError` / `FlushError`: the flush fails when a pending row's key
+is taken (the handler then runs on the still dirty session), otherwise the view becomes the committed state -/
+def sessCommitTryM (w : M) (k : V → M) (conflict : V → M) : M :=
+  bindM w fun w => match w with
+    | .sworld s c Option.none => if c then conflict (.sworld s c Option.none) else k (.sworld (commit s) false Option.none)
+    | _ => raiseM
+
+open SqlSession in
+/-- `self.session.commit()` where nothing is pending that could conflict -/
+def sessCommitM (w : M) (k : V → M) : M :=
+  bindM w fun w => match w with
+    | .sworld s _ Option.none => k (.sworld (commit s) false Option.none)
+    | _ => raiseM
+
+open SqlSession in
+/-- `self.session.rollback()` -/
+def sessRollbackM (w : M) (k : V → M) : M :=
+  bindM w fun w => match w with
+    | .sworld s _ Option.none => k (.sworld (rollback s) false Option.none)
+    | _ => raiseM
+
+/-- `self.session.get(PolicyModel, uid)`: the row object the session's view holds, or `None` -/
+def sessGetM (key w : M) (k : V → V → M) : M :=
+  bindM key fun ky => bindM w fun w => match ky, w with
+    | .py (.str u), .sworld s c Option.none =>
+      (match Store.lookup u s.view with
+       | some p => k (.smodel u p true) (.sworld s c Option.none)
+       | Option.none => k (.py .none) (.sworld s c Option.none))
+    | _, _ => raiseM
+
+open SqlSession in
+/-- `policy_model.update(policy)`: the loaded row takes the new policy's columns and elements - or the conversion raises half-way
+(the half-applied change is pending in the session; the exception loses nothing the handler's rollback would keep) -/
+def modelUpdateM (model pol w : M) (k : V → M) : M :=
+  bindM model fun m => bindM pol fun p => bindM w fun w => match m, p, w with
+    | .smodel u _ _, .polv _ c ok, .sworld s cf Option.none =>
+      if ok then k (.sworld (stage (Store.replace u c) s) cf Option.none) else raiseM
+    | _, _, _ => raiseM
+
+open SqlSession in
+/-- `self.session.query(PolicyModel).filter(PolicyModel.uid == uid).delete()`: a bulk DELETE, pending -/
+def sessBulkDeleteM (key w : M) (k : V → M) : M :=
+  bindM key fun ky => bindM w fun w => match ky, w with
+    | .py (.str u), .sworld s c Option.none => k (.sworld (stage (Store.erase u) s) c Option.none)
+    | _, _ => raiseM
+
+/-- `model.to_policy()` -/
+def toPolicyM (model : M) : M :=
+  bindM model fun m => match m with | .smodel u p _ => .ok (.polv u p true) | _ => raiseM
+
+/-- `raise PolicyExistsError(...)` / a bare `raise` in a handler of the SQL storage -/
+def raiseSqlM (exc : String) (w : M) : M :=
+  bindM w fun w => match w with
+    | .sworld s c Option.none => .ok (.sworld s c (some (if exc == "PolicyExistsError" then .existsErr else .rejected)))
     | _ => raiseM
 
 /-! ### `Policy.from_json`: the decoded properties as a local dictionary -/
